@@ -62,6 +62,63 @@ CLAIMED = {
         "contract-based deductive verification of the sequential model with ghost lock state; schedules by stated assumption only",
         "DESIGN.md §4 C19",
     ),
+
+    "C11": (
+        "proof",
+        "OffsetTime/OffsetDate/OffsetDateTime construction, accessors, with_offset (same instant, day carry in both directions), to_instant/in_fixed_zone round-trips, +/- Duration with the calendar preserved, comparers and the packed nanosecond-of-day/offset word are symbolically executed from the real source against the view (local day, nanosecond of day, offset seconds, calendar); all VCs discharged for all inputs over a symbolic calendar.",
+        "Trusted: A1-A4, CAL axioms (C01 per-class obligations). ZonedDateTime is covered by C05's stand-in only.",
+        "contract-based deductive verification: AST symbolic execution of the real functions to VCs, discharged by z3/cvc5",
+        "DESIGN.md §4 C11",
+    ),
+    "C12": (
+        "proof",
+        "Equality/ordering/hash laws of the value types (Duration, Instant, Offset, LocalTime, LocalDate, LocalDateTime, YearMonth, OffsetTime, OffsetDateTime, Period, Interval, DateInterval): == is exactly equality of the abstract view, != its negation, <,<=,>,>= the order of the view (raising on calendar mismatch as documented), hash a function of the view, comparison with foreign types NotImplemented; proved from the real dunder bodies for all inputs.",
+        "Trusted: A1-A3, CAL axioms; hash() of a tuple of equal components is equal (Python semantics). Not yet under contract: ZoneInterval, AnnualDate, OffsetDate, ZonedDateTime, fixed zone equality.",
+        "contract-based deductive verification: AST symbolic execution to VCs against abstract views",
+        "DESIGN.md §4 C12",
+    ),
+    "C13": (
+        "other",
+        "Cache transparency as a contract over ARBITRARY cache states: _YearStartCacheEntry validation/packing, _YearMonthDayCalculator._get_start_of_year_in_days and the Hebrew calculator's two caches return the uncached computation for every cache content satisfying the representation invariant 'every valid entry stores the computed value of its own key' (and re-establish the invariant), so no history of earlier calls can change a result. Thread schedules are outside this family: entries are single immutable ints/objects written by one store (argument from an assumption about CPython's atomic list item store, not a proof).",
+        "Trusted: A1-A3, A10 (atomic list-item stores under the GIL). Not yet under contract: zone-interval hash cache, generic _Cache, DateTimeZoneCache, calendar singletons.",
+        "contract-based deductive verification with a representation invariant over arbitrary cache contents; schedules by stated assumption only",
+        "DESIGN.md §4 C13",
+    ),
+    "C14": (
+        "other",
+        "Writer/reader pairs of the .nzd primitives (count, signed count, milliseconds in all four encodings, offset, zone-interval transition in all encodings, byte/int32/int64, ZoneYearOffset flags) are symbolically executed back to back over a token-level stream model: read(write(v)) == v for every v the writer accepts, the writer rejects exactly the out-of-range values, and the reader consumes exactly what the writer produced. Stand-in (bounded, not counted): all 724 real zones re-encoded byte-identically.",
+        "Trusted: A1-A4, A11 (byte-level stream abstraction: one token per written byte group; struct.pack/unpack and bytes methods modelled, not verified). Strings, dictionaries, ZoneRecurrence, the alternating map and the precalculated zone are covered by the stand-in only.",
+        "contract-based deductive verification of the real codec primitives over a symbolic stream; bounded stand-in for composite records",
+        "DESIGN.md §4 C14",
+    ),
+    "C20": (
+        "other",
+        "Every reader primitive under contract over an ARBITRARY stream (unknown content, ghost count of remaining bytes): it terminates, and either returns a value within its documented range or raises only InvalidPyodaDataError (EOF included); varint loop bounded by loop variant; boundary contract: _TzdbStreamData._from_stream/create_zone convert the data-error family into InvalidPyodaDataError. Stand-in (bounded, not counted): truncation at every prefix class and seeded single-byte corruptions of both real files.",
+        "Trusted: A1-A3, A11. The composite readers between the primitives and the boundary (zone, recurrence, field framing) are covered by the sweep only. A genuine defect (struct.error/ValueError/LookupError/OverflowError escaping) was repaired with a fix: commit.",
+        "contract-based deductive verification of reader primitives over arbitrary streams; bounded fault sweep as stand-in",
+        "DESIGN.md §4 C20",
+    ),
+    "C04": (
+        "other",
+        "BOUNDED STAND-IN ONLY (no obligation is counted as discharged): every zone id of both real database files is walked through the public API from the start of time; intervals abut, are maximal, contain the probed instants, the reported offset is the interval's wall offset = standard + savings and lies within min/max. Quick: first 260 intervals per zone + the last ~40 before year 9999; thorough: complete walk (finite configuration, exhaustive).",
+        "The zone classes (binary search over a symbolic-length period list, recurrences over LocalDate arithmetic) are outside the pyvc subset as it stands; see DESIGN.md §4 C04 for which parts are planned under contract.",
+        "bounded run-time contract checking over the finite real configuration (stand-in within the contract family)",
+        "DESIGN.md §4 C04",
+    ),
+    "C05": (
+        "other",
+        "Instant._safe_plus/_safe_minus/_LocalInstant arithmetic (the local bounds of an interval) are under deductive contract (shared with C03). The mapping algorithm itself is covered by a BOUNDED STAND-IN: for every zone of both real files, local date-times at -100 s, -1 ns, 0, +1 ns, +100 s around transitions are mapped and compared with brute force over candidate offsets; strict/lenient resolvers checked against their promises.",
+        "The mapping algorithm depends on the zone's interval map (a higher-order dependency) and is not yet under a modular contract; counted as bounded, not proved.",
+        "deductive contracts for the interval-bound arithmetic; bounded run-time contract checking of map_local over the real configuration",
+        "DESIGN.md §4 C05",
+    ),
+    "C06": (
+        "other",
+        "BOUNDED STAND-IN ONLY: an independent decoder of the .nzd bytes and an independent evaluator of the yearly rules (plain datetime.date arithmetic, no repo code) are compared with the zones the real source serves: every stored period (start, end, name, wall offset, savings), every rule-generated tail transition (quick: first 14 + last 4 years; thorough: through year 9999), id list == sorted(canonical + aliases), aliases, fixed-offset ids, validate(), version. The property quantifies over a finite configuration, so the thorough tier is exhaustive.",
+        "Trusted: specs/nzd.py is my reading of the format notes. The reader primitives are separately under deductive contract in C14/C20.",
+        "bounded differential check against an independent interpretation (stand-in); reader primitives deductively verified under C14/C20",
+        "DESIGN.md §4 C06",
+    ),
 }
 
 NOT_YET = {}
